@@ -117,34 +117,57 @@ func runC13(r *Run) {
 	}
 
 	// ---- histories over pools of objects ----
-	h := 150
+	// engines (one per back end, with the user library), three persistent type-environment objects, three persistent
+	// value-environment objects with DIFFERENT contents, compiled callables kept and invoked repeatedly in any order;
+	// every compile / invoke must give what the same operation gives on fresh objects (class, value, host-call trace),
+	// and every invocation is also a correspondence case against the model evaluated on (source, that environment).
+	h := 120
 	if r.Tier == "thorough" {
-		h = 8000
+		h = 6000
 	}
-	srcs := []string{`x + y`, `len(xs) + o.p`, `m["k"]`, `m["zz"]`, `if(b, s, e)`, `[o, o2][1].q`, `get(mz, 9)`, `nope + 1`, `xs[7]`, `string(m)`, `x +`, `5 % z`}
+	fixed := []string{`x + y`, `len(xs) + o.p`, `m["k"]`, `m["zz"]`, `if(b, s, e)`, `[o, o2][1].q`, `get(mz, 9)`, `nope + 1`, `xs[7]`, `string(m)`, `x +`, `5 % z`,
+		`[s: x]`, `len([s: x, "z": 0])`, `isset([s: x], "a")`, `string([s: x])`, `[x: s, y: e]`, `[xs, es]`, `{a: xs, b: s}`, `[s, e, s]`, `union(xs, es)`, `[o.q: o.p]`,
+		`tr(x) + tr(y)`, `if(b, tr(x), tr(y))`, `[trs(s): tr(x)]`, `get(mb, x)`, `xs[x]`, `ss[y + 2.5]`, `m[s]`, `string(nest)`, `[mb, mz]`, `[t0: x]`}
+	emitted := 0
 	for i := 0; i < h; i++ {
-		engines := []*yae.Expr{yae.NewExpr(), yae.NewExpr().UseClosureCompiler()}
-		tenvs := []*types.Env{typeEnvOf(vars), typeEnvOf(vars)}
-		venvs := []*val.Env{valEnvOf(stdValues()), valEnvOf(stdValues())}
+		srcs := append([]string{}, fixed...)
+		for k := 0; k < 12; k++ {
+			g := &progGen{r: r, vars: vars, fns: stdFns, useFns: true, trace: k%2 == 0}
+			srcs = append(srcs, g.Gen(g.randType(2), 1+g.rn(3)))
+		}
+		vg := &vgen{r: r}
+		sets := []map[string]*val.Val{stdValues(), stdValues(), stdValues()}
+		for _, v := range vars { // set 1 and 2: other contents of the same types
+			switch v.Ty.K {
+			case "num", "str", "bool", "list", "map":
+				sets[1][v.Name] = vg.gen(v.Ty, 2)
+				if r.Rng.Intn(2) == 0 {
+					sets[2][v.Name] = vg.gen(v.Ty, 1)
+				}
+			}
+		}
+		tls := make([]*traceLog, len(backends))
+		engines := make([]*yae.Expr, len(backends))
+		for bi, be := range backends {
+			tls[bi] = &traceLog{}
+			engines[bi] = newExpr(be, tls[bi], true)
+		}
+		tenvs := []*types.Env{typeEnvOf(vars), typeEnvOf(vars), typeEnvOf(vars)}
+		venvs := []*val.Env{valEnvOf(sets[0]), valEnvOf(sets[1]), valEnvOf(sets[2])}
 		var callables []yae.Callable
 		var csrc []string
 		var cback []int
-		steps := 4 + r.Rng.Intn(12)
+		steps := 6 + r.Rng.Intn(14)
 		var hist []string
 		for s := 0; s < steps; s++ {
 			if len(callables) == 0 || r.Rng.Intn(3) == 0 {
-				ei, ti, si := r.Rng.Intn(2), r.Rng.Intn(2), r.Rng.Intn(len(srcs))
-				hist = append(hist, fmt.Sprintf("compile(engine%d, %q, tenv%d)", ei, srcs[si], ti))
+				ei, ti, si := r.Rng.Intn(len(engines)), r.Rng.Intn(3), r.Rng.Intn(len(srcs))
+				hist = append(hist, fmt.Sprintf("compile(%s, %q, tenv%d)", backends[ei], srcs[si], ti))
 				var c yae.Callable
 				var err error
 				pan, msg := protect(func() { c, err = engines[ei].Compile(srcs[si], tenvs[ti]) })
-				// baseline: fresh engine of the same kind, fresh environment object
 				var berr error
-				fresh := yae.NewExpr()
-				if ei == 1 {
-					fresh.UseClosureCompiler()
-				}
-				bpan, _ := protect(func() { _, berr = fresh.Compile(srcs[si], typeEnvOf(vars)) })
+				bpan, _ := protect(func() { _, berr = newExpr(backends[ei], &traceLog{}, true).Compile(srcs[si], typeEnvOf(vars)) })
 				got := fmt.Sprint(pan, err != nil)
 				want := fmt.Sprint(bpan, berr != nil)
 				if got != want {
@@ -161,38 +184,45 @@ func runC13(r *Run) {
 					cback = append(cback, ei)
 				}
 			} else {
-				ci, vi := r.Rng.Intn(len(callables)), r.Rng.Intn(2)
-				hist = append(hist, fmt.Sprintf("invoke(%q, venv%d)", csrc[ci], vi))
+				ci, vi := r.Rng.Intn(len(callables)), r.Rng.Intn(3)
+				if r.Rng.Intn(3) == 0 {
+					ci = len(callables) - 1 // favour re-invoking the same callable
+				}
+				be := cback[ci]
+				hist = append(hist, fmt.Sprintf("invoke(%s %q, venv%d)", backends[be], csrc[ci], vi))
 				var v *val.Val
 				var err error
+				tls[be].ev = nil
 				pan, msg := protect(func() { v, err = callables[ci](venvs[vi]) })
-				got := outOf(v, err, pan, msg)
-				// baseline
-				fresh := yae.NewExpr()
-				if cback[ci] == 1 {
-					fresh.UseClosureCompiler()
+				var got outcome
+				got.trace = tls[be].ev
+				switch {
+				case pan:
+					got.cls = classify(msg)
+				case err != nil:
+					got.cls = classify(err.Error())
+				default:
+					got.cls, got.v = "value", v
 				}
-				var bv *val.Val
-				var berr error
-				bpan, bmsg := protect(func() {
-					c, e := fresh.Compile(csrc[ci], typeEnvOf(vars))
-					if e != nil {
-						berr = e
-						return
-					}
-					bv, berr = c(valEnvOf(stdValues()))
-				})
-				want := outOf(bv, berr, bpan, bmsg)
-				if got.cls == "panic" && want.cls == "panic" {
-					continue // escaping panics are C12's business
+				want := runOn(backends[be], csrc[ci], vars, sets[vi], true)
+				gs, ws := string(got.Sx()), string(want.Sx())
+				if got.cls == "value" && want.cls == "value" {
+					gs += " " + got.v.Type.String() + " " + got.v.String()
+					ws += " " + want.v.Type.String() + " " + want.v.String()
 				}
-				if got != want {
+				if gs != ws {
 					k := "history:invoke-differs-from-fresh"
 					if strings.Contains(fmt.Sprint(err, msg), "env.parent") {
 						k = "history:value-env-object-not-reusable"
 					}
-					r.Violate(k, strings.Join(hist, "; "), fmt.Sprintf("got %s, fresh objects give %s", got, want))
+					r.Violate(k, strings.Join(hist, "; "), fmt.Sprintf("got %s, fresh objects give %s", gs, ws))
 					break
+				}
+				if emitted < 40*h && !strings.HasPrefix(got.cls, "unexpected") {
+					emitted++
+					hs := historyFor(true)
+					tag := map[string]string{"closure": "evalsrc", "interp": "evalsrc", "vm-switch": "vmsrc", "vm-call": "vmcsrc"}[backends[be]]
+					r.Case(L(A(tag), hs.Sx(), tenvSx(vars), venvSx(vars, sets[vi]), oraclesSx(csrc[ci], sets[vi]), Runes(csrc[ci])), got.Sx())
 				}
 			}
 		}
